@@ -66,11 +66,15 @@ func responseFromExpr(r *expr.HTTPResponseExpr, bodies map[int][]*openapi.Schema
 				}
 			}
 		} else {
-			// Generic cookies header
+			// Generic cookies header, required if one of the cookies is.
+			required := false
+			for _, v := range cookies {
+				required = required || v.Value.Required
+			}
 			headers["Set-Cookie"] = &HeaderRef{
 				Value: &Header{
 					Description: "Cookies set by the server",
-					Required:    true,
+					Required:    required,
 					Schema: &openapi.Schema{
 						Type: "string",
 					},
